@@ -942,6 +942,9 @@ class PathSum:
             callee = callee + "::<%s>" % e["gargs"][0]
         cur, ab = self.ev_list([e["recv"]] + e["args"], st)
         out = list(ab)
+        if e["name"] in BORROW_VIEWS and not e["args"]:
+            # a borrowing view of the receiver (`v.as_slice()`, `a.as_ref()` ...) is the receiver's value, and no effect
+            return out + [("val", s, v[0]) for (s, v) in cur]
         for (s, v) in cur:
             r = self.combinator(callee, v, s, site, e)
             if r is not None:
@@ -1109,6 +1112,9 @@ class PathSum:
 
 
 # ---------------------------------------------------------------------- utilities
+BORROW_VIEWS = ("as_slice", "as_mut_slice", "as_ref", "as_mut", "deref", "deref_mut", "borrow", "borrow_mut")
+
+
 def exact_int_cast(src, dst):
     """Does `src as dst` keep every value? usize/isize are taken as 16 bits wide as a target and 64 as a source."""
     def wd(t, as_target):
